@@ -64,9 +64,16 @@ func c08(c *ctx) {
 		{[]string{"import (\n x \"os\"\n \"os/exec\"\n \"bytes\"\n)"}, " F *x.File\n C *exec.Cmd\n BB bytes.Buffer"},
 		{[]string{`import "strconv"`, `import "io"`, `import "slices"`}, " E strconv.NumError\n W io.Writer"},
 		{[]string{`import z "unicode/utf8"`, `import a "unicode"`}, " R [z.UTFMax]byte\n T *a.RangeTable"},
+		// an alias that merely repeats the package's own name, for packages the parser itself imports (with an AST: io,
+		// os, bytes; always: fmt, slices, strconv) — the name must not be declared twice
+		{[]string{`import io "io"`}, " W io.Writer"},
+		{[]string{"import (\n fmt \"fmt\"\n strconv \"strconv\"\n)"}, " S fmt.Stringer\n E strconv.NumError"},
+		{[]string{`import os "os"`, `import b "bytes"`, `import bytes "bytes"`}, " F *os.File\n BB bytes.Buffer\n B2 b.Buffer"},
 	}
 	actions := []string{"p.N++", "v := p.N; p.N = v + 1", "v := 2; p.N += v", "p.N = (p.N + 5) % 7", "_ = fmt.Sprintf(\"%s/%d%%\", \"a\", p.N)", "/* a comment */ p.N++", "// a line comment\n p.N++", "s := \"*/\"; _ = s", "if true { p.N++ }", "r := `{}`; _ = r", "p.N += len(\"\\\"{}\")", "func() { p.N++ }()", ""}
-	preds := []string{"true", "p.N >= 0 /* {} */", "len(\"*/\") == 2", "func() bool { return true }()", "!false && (true)"}
+	preds := []string{"true", "p.N >= 0 /* {} */", "len(\"*/\") == 2", "func() bool { return true }()", "!false && (true)",
+		// predicates written over several lines, ending in a newline, or carrying line comments
+		"\n  p.N >= 0\n", "p.N >= 0 // never negative\n", "p.N >= 0 && // first\n  true /* second */\n", "true // to the end of the text", "len(\"//\") == 2"}
 	for i := 0; i < n; i++ {
 		var g *gram.Grammar
 		kind := "profile-mix"
@@ -123,7 +130,9 @@ func c08(c *ctx) {
 				return a
 			},
 			StateCode: func(id int) string {
-				return []string{"p.N++", "p.N-- // down\n", "/* c */ p.N = int(position)"}[(id+ii)%3]
+				// two of the forms declare the same variable: every state change of a rule lands in one Go function, between
+				// the jumps of the alternatives around it
+				return []string{"p.N++", "p.N-- // down\n", "/* c */ p.N = int(position)", "k := 1; p.N += k", "var k = int(position)\n p.N -= k // local\n"}[(id+ii)%5]
 			},
 			PredText: func(e *gram.Expr) string {
 				switch e.Pred {
@@ -167,6 +176,17 @@ func c08(c *ctx) {
 		}
 		g.Number()
 		cases = append(cases, &c08case{id: len(cases), g: g, kind: fmt.Sprintf("many-rules-%d", nr), opts: gram.PrintOpts{State: " N int", ActionCode: func(id int) string { return "p.N++" }}})
+	}
+	// ranges whose bounds are ordinary characters but which span the surrogate block U+D800-U+DFFF (e.g. "all of the
+	// BMP above ASCII"), as a -switch case next to a larger alternative (so that the range is not the default case)
+	for _, sr := range [][4]rune{{0xD7FE, 0xE001, 0xE002, 0xF8FF}, {0x80, 0xFFFF, 0x10000, 0x10FFFF}, {0xD7FF, 0xE000, 0xE001, 0xE900}} {
+		g := &gram.Grammar{Rules: []*gram.Rule{{Name: "R0", E: gram.Seq(gram.Alt(
+			gram.Seq(gram.Rng(sr[0], sr[1]), gram.Lit("x")),
+			gram.Seq(gram.Rng(sr[2], sr[3]), gram.Lit("y")),
+			gram.Seq(gram.Lit("a"), gram.Lit("z"))), gram.Un(gram.KNot, gram.Dot()))}}}
+		g.Number()
+		cases = append(cases, &c08case{id: len(cases), g: g, kind: "surface-range-spanning-the-surrogates", opts: gram.PrintOpts{State: " N int"}})
+		c.run.Count("grammars_with_a_range_spanning_the_surrogate_block", 1)
 	}
 	// a language feature that occurs ONLY in a rule unreachable from the first rule (peg warns and still writes the
 	// parser): what the template declares for that feature (matchDot, text, Execute, the pretty-printer's imports)
@@ -304,9 +324,9 @@ func c08(c *ctx) {
 		c08huge(c, peg)
 	}
 	requireCov(c, "packages_ok", "grammars_many", "grammars_no", "grammars_surface", "grammars_profile", "grammars_warned")
-	c.run.Rule = "cases: grammars from all profiles plus a surface profile (user imports single/several/grouped/aliased/duplicating runtime imports/sorting differently with and without alias — each used by the parser state so that they are needed; header comments with # and // and blank-line runs; state with nested braces; literals and classes over NUL, control, quote, bracket, dash, caret, backslash, Latin-1, U+2028, non-BMP and U+10FFFF characters; actions, state changes and predicates containing /* */ and // comments, '*/' in strings, nested braces, raw strings; grammars without any terminal; captures nobody reads; actions without capture; grammars accepted with warnings only: unused rules, undefined names, left recursion) and grammars of 130-430 rules plus exact boundary sizes (126-128 rules = 253-257 rule ids; more in thorough) (x1-3 actions each: beyond 255 rule ids; in the thorough tier one 33 000-rule grammar with 66 001 rule ids is generated and checked for syntax, 32-bit rule type and gofmt form but not compiled — the Go compiler needs hours for it); each generated with the real peg under all eight -inline/-switch/-noast combinations. " +
+	c.run.Rule = "cases: grammars from all profiles plus a surface profile (user imports single/several/grouped/aliased/duplicating runtime imports/aliased with the package's own name/sorting differently with and without alias — each used by the parser state so that they are needed; header comments with # and // and blank-line runs; state with nested braces; literals and classes over NUL, control, quote, bracket, dash, caret, backslash, Latin-1, U+2028, non-BMP and U+10FFFF characters; actions, state changes and predicates containing /* */ and // comments, predicates over several lines, state changes that declare variables, ranges spanning the surrogate block as a -switch case, '*/' in strings, nested braces, raw strings; grammars without any terminal; captures nobody reads; actions without capture; grammars accepted with warnings only: unused rules, undefined names, left recursion) and grammars of 130-430 rules plus exact boundary sizes (126-128 rules = 253-257 rule ids; more in thorough) (x1-3 actions each: beyond 255 rule ids; in the thorough tier one 33 000-rule grammar with 66 001 rule ids is generated and checked for syntax, 32-bit rule type and gofmt form but not compiled — the Go compiler needs hours for it); each generated with the real peg under all eight -inline/-switch/-noast combinations. " +
 		"Oracle: exit 0, empty stderr (warnings only for the warned kind), the file compiles together with a file that uses the public API, and go/format.Source(file) == file. distinct_nontrivial = distinct emitted files (sha256 below the header line, package name normalised) that passed; the same grammar often yields the same file under several option sets."
-	c.run.Assume("rule names R<n>/H<n>..., actions are valid Go; predicates are Go expressions (a trailing // comment inside a predicate is not an expression and is not generated); actions use text only in grammars with a capture")
+	c.run.Assume("rule names R<n>/H<n>..., actions are valid Go; predicates are Go expressions, possibly spread over several lines and with /* */ or // comments; actions use text only in grammars with a capture")
 }
 
 func firstDiff(a, b []byte) string {
